@@ -35,6 +35,39 @@ class SigPool(object):
         return s
 
 
+class MetaPool(object):
+    """Extended universe: every request decorates the parameter list with
+    defaults and annotations drawn from small pools (so that agreement and
+    disagreement both occur) and builds a fresh function."""
+
+    def __init__(self, rnd, defaults=('1', '2', '3'), anns=('1', '2', '3'), p_ann=0.5,
+                 future=False, globs=None):
+        self.rnd = rnd
+        self.defaults = defaults
+        self.anns = anns
+        self.p_ann = p_ann
+        self.future = future
+        self.globs = globs
+
+    def decorate(self, params):
+        rnd = self.rnd
+        out = []
+        for n, k, d, a in params:
+            if d is not None:
+                d = rnd.choice(self.defaults)
+            if rnd.random() < self.p_ann:
+                a = rnd.choice(self.anns)
+            out.append((n, k, d, a))
+        return tuple(out)
+
+    def sig(self, params, fresh=False):
+        from sigtools import signatures
+        f = sigs.make_func(self.decorate(params), name='fn%d' % next(_fn_counter),
+                           globs=self.globs, future=self.future,
+                           ret=self.rnd.choice(self.anns) if self.rnd.random() < 0.3 else None)
+        return signatures.signature(f)
+
+
 def call(fn, *a, **k):
     """Invoke an operation of the algebra; outcomes (including exceptions) are
     the monitors' business, not the driver's."""
@@ -119,9 +152,9 @@ def aligned_variants(rnd, base, k):
     return tuple(out)
 
 
-def drive_merge(ctx, tier, want='any'):
+def drive_merge(ctx, tier, want='any', pool=None):
     S = sigapi()
-    pool = SigPool()
+    pool = pool or SigPool()
     for case in merge_cases(ctx, tier, want):
         ctx.count('driver.merge')
         call(S.merge, *[pool.sig(p) for p in case])
@@ -196,9 +229,9 @@ def embed_cases(ctx, tier):
             yield (o, rnd.choice(mids), rnd.choice(inners)), f
 
 
-def drive_embed(ctx, tier):
+def drive_embed(ctx, tier, pool=None):
     S = sigapi()
-    pool = SigPool()
+    pool = pool or SigPool()
     for case, (uva, uvk) in embed_cases(ctx, tier):
         ctx.count('driver.embed')
         call(S.embed, *[pool.sig(p) for p in case], use_varargs=uva, use_varkwargs=uvk)
@@ -259,9 +292,9 @@ def mask_cases(ctx, tier, flags=True, dup=False, include_posonly=False):
             ctx.exhaustive['mask: %d signatures x n in 0..len+2 x every name tuple (<=3)' % len(space)] = done
 
 
-def drive_mask(ctx, tier, **kw):
+def drive_mask(ctx, tier, pool=None, **kw):
     S = sigapi()
-    pool = SigPool()
+    pool = pool or SigPool()
     for p, n, names, fs in mask_cases(ctx, tier, **kw):
         ctx.count('driver.mask')
         call(S.mask, pool.sig(p), n, *names, **fs)
@@ -288,9 +321,9 @@ def forwards_cases(ctx, tier):
         yield o, i, n, names, kw
 
 
-def drive_forwards(ctx, tier):
+def drive_forwards(ctx, tier, pool=None):
     S = sigapi()
-    pool = SigPool()
+    pool = pool or SigPool()
     for o, i, n, names, kw in forwards_cases(ctx, tier):
         ctx.count('driver.forwards')
         call(S.forwards, pool.sig(o), pool.sig(i), n, *names, **kw)
@@ -334,13 +367,13 @@ def replay(ctx, rec):
 
 # --------------------------------------------------------------- composites
 
-def drive_composite(ctx, tier, n_cases=None):
+def drive_composite(ctx, tier, n_cases=None, pool=None):
     """Random expression trees over the algebra: results of one operation are
     inputs of the next, so provenance maps with several callables, depths > 1
     and same-named star parameters reach every monitor."""
     S = sigapi()
     rnd = ctx.rng('composite')
-    pool = SigPool()
+    pool = pool or SigPool()
     leaves = sigs.U(('a', 'b', 'c'), 2) + sigs.U(('x', 'y'), 2)
     n_cases = n_cases or {'quick': 6000, 'thorough': 80000}[tier] // ctx.nshards
 
@@ -385,7 +418,7 @@ def drive_composite(ctx, tier, n_cases=None):
             pass
 
 
-def drive_partial_retrieval(ctx, tier, n_cases=None):
+def drive_partial_retrieval(ctx, tier, n_cases=None, meta=None):
     """signatures.signature(functools.partial(f, *a, **k)) over the universe."""
     import functools
     S = sigapi()
@@ -396,6 +429,8 @@ def drive_partial_retrieval(ctx, tier, n_cases=None):
         if ctx.out_of_time('partial retrievals'):
             break
         p = rnd.choice(U)
+        if meta is not None:
+            p = meta.decorate(p)
         f = sigs.make_func(p, name='fn%d' % next(_fn_counter))
         npos = rnd.randint(0, sigs.positional_capacity(p) + 1)
         cand = [x[0] for x in p if x[1] in (PK, KO)] + [oracle.FOREIGN]
